@@ -259,6 +259,10 @@ class TS:
         self.f0 = f0
         f = copy_fragment(f0)
         self.f = f
+        self.orig_signals = set(list_signals(f0))
+        for sp in f0.specials:
+            try: self.orig_signals |= set(sp.list_ios(True, True, True))
+            except Exception: pass
         mta = MemoryToArray(); mta.transform_fragment(None, f)
         from litex.gen.sim.core import DummyAsyncResetSynchronizer
         f, lowered = lower_specials({AsyncResetSynchronizer: DummyAsyncResetSynchronizer}, f)
